@@ -566,7 +566,7 @@ Proof.
   intros [h d] g o HRR Hwf. unfold rstep.
   destruct (rexec (h, d) o) as [[r h'] es] eqn:Hex. cbn [fst snd].
   pose proof HRR as (HV & HI & Hd & Hinfo & Hrm & Hme & Hmode & Hty & Hb). cbn [fst snd] in *.
-  destruct o as [its|idx|m|m| |]; cbn [rexec] in Hex.
+  destruct o as [its|idx|m|m| | |]; cbn [rexec] in Hex.
   - eapply riterappend_refines; eassumption.
   - eapply rtruncate_refines; eassumption.
   - inversion Hex; subst r h' es. cbn [rspec_step fst snd is_ok apply_reffs fold_left]. split; [reflexivity|].
@@ -591,6 +591,12 @@ Proof.
     destruct (g_meta g) eqn:Hmt; [|inversion Hex; subst; cbn; split; [reflexivity|exact HRR]].
     rewrite Hmode in Hex.
     destruct (g_mode g) eqn:Hm; inversion Hex; subst r h' es; cbn; (split; [reflexivity|]); [exact HRR|].
+    unfold RRel. cbn [fst snd apply_reffs fold_left apply_reff r_values r_indices r_descr r_readme r_meta].
+    split; [exact HV|]. split; [exact HI|]. repeat split; try assumption.
+    cbn. rewrite Hmode. symmetry; exact Hm.
+  - rewrite Hmode, Hme in Hex. cbn [rspec_step].
+    destruct (g_mode g) eqn:Hm; [inversion Hex; subst; cbn; split; [reflexivity|exact HRR]|].
+    destruct (g_meta g) eqn:Hmt; inversion Hex; subst r h' es; cbn; (split; [reflexivity|]); [|exact HRR].
     unfold RRel. cbn [fst snd apply_reffs fold_left apply_reff r_values r_indices r_descr r_readme r_meta].
     split; [exact HV|]. split; [exact HI|]. repeat split; try assumption.
     cbn. rewrite Hmode. symmetry; exact Hm.
